@@ -71,14 +71,15 @@ Definition Output := res (Solver * option Status).
 Section StoreAPI.
 Variable K : Consts.
 Variable ident : bool.
+Variable sparse_pc : bool.      (* API.v: the Ruiz preconditioner of the sparse backend *)
 Variable junk : F.
 Variable cp_bits : Z.
 
 (* value-level call, after the arguments have been read *)
 Definition call_values (sv : option Solver) (c : Call) (B : Blocks) : Output :=
   match c, sv with
-  | CSetup St n p m _, _ => do s <- setup K ident junk St n p m B ;; Ok (s, None)
-  | CUpdate _ reuse, Some s0 => do s <- update K s0 B reuse ;; Ok (s, None)
+  | CSetup St n p m _, _ => do s <- setup K ident sparse_pc junk St n p m B ;; Ok (s, None)
+  | CUpdate _ reuse, Some s0 => do s <- update K sparse_pc s0 B reuse ;; Ok (s, None)
   | CSolve fault, Some s0 => do '(s, st) <- solve K junk cp_bits fault s0 ;; Ok (s, Some st)
   | _, None => Err Shape                         (* "Solver not setup yet" *)
   end.
